@@ -101,4 +101,8 @@ indentation 5. -/
 example : followLeadingLines ["/* a", "    b", "", "  c */"] = some 2 ∧
     followLeadingLines (realigned 5 2 ["/* a", "    b", "", "  c */"]) = some 5 := by decide
 
+/-- The hypotheses of T3.2 hold for the styles the printer uses for arguments, arrays, dictionaries,
+parameters and destructurings (`parenStyle`: no `tight_delim`, no delimiter omission). -/
+example (e : Env) : e.parenStyle.tightDelim = false ∧ e.parenStyle.omitDelimSingle = false := ⟨rfl, rfl⟩
+
 end Typstyle
